@@ -257,11 +257,11 @@ func c03Configs(c *Ctx) []c03Cfg {
 	for _, k := range kinds {
 		for _, fifo := range []bool{false, true} {
 			for _, cp := range caps {
-				out = append(out, c03Cfg{listCfg{k, fifo, cp, false, false, cp, false, false, false, 0, "", false}, "", false, false})
+				out = append(out, c03Cfg{listCfg{k, fifo, cp, false, false, cp, false, false, false, 0, "", false, false}, "", false, false})
 				if k == "LIST" || k == "AND" || !c.Quick() {
-					out = append(out, c03Cfg{listCfg{k, fifo, cp, false, false, cp, false, false, false, 0, "", false}, "", true, false})
-					out = append(out, c03Cfg{listCfg{k, fifo, cp, false, false, cp, true, false, true, 0, "", false}, "", false, false})
-					out = append(out, c03Cfg{listCfg{k, fifo, cp, false, false, cp, false, false, false, 0, "", false}, "", false, true})
+					out = append(out, c03Cfg{listCfg{k, fifo, cp, false, false, cp, false, false, false, 0, "", false, false}, "", true, false})
+					out = append(out, c03Cfg{listCfg{k, fifo, cp, false, false, cp, true, false, true, 0, "", false, false}, "", false, false})
+					out = append(out, c03Cfg{listCfg{k, fifo, cp, false, false, cp, false, false, false, 0, "", false, false}, "", false, true})
 				}
 			}
 			for _, cp := range caps[:2] {
@@ -277,7 +277,7 @@ func c03Configs(c *Ctx) []c03Cfg {
 				}
 			}
 			for _, ctor := range []string{"", "0", "-1", "marshal", "marshal-nested"} {
-				out = append(out, c03Cfg{listCfg{k, fifo, 0, false, false, 3, false, false, false, 0, "", false}, ctor, false, false})
+				out = append(out, c03Cfg{listCfg{k, fifo, 0, false, false, 3, false, false, false, 0, "", false, false}, ctor, false, false})
 			}
 		}
 	}
@@ -299,6 +299,88 @@ func init() {
 	}})
 }
 
+// c03LongBatches: the long regime. One growth call (a Push batch, a Transfer-into) whose size is anything from
+// two short of to three beyond the room left, on stacks of capacity 4..130 holding anything from nothing to
+// k elements: whatever path a long batch takes, the stack never holds more than k, and keeps the earliest.
+func c03LongBatches(c *Ctx) int {
+	caps := []int{4, 8, 9, 16, 31, 32, 33, 40, 64, 65}
+	if !c.Quick() {
+		caps = []int{4, 5, 7, 8, 9, 15, 16, 17, 30, 31, 32, 33, 34, 35, 40, 63, 64, 65, 66, 100, 127, 128, 129, 130}
+	}
+	type job struct{ k, p, n, variant int }
+	var jobs []job
+	for _, k := range caps {
+		for p := 0; p <= k; p++ {
+			if c.Quick() && p > 3 && p < k-3 && p%5 != 0 {
+				continue
+			}
+			seen := map[int]bool{}
+			for _, n := range []int{k - p - 2, k - p - 1, k - p, k - p + 1, k - p + 2, k - p + 3, 31, 32, 33, k, k + 1} {
+				if n < 1 || seen[n] {
+					continue
+				}
+				seen[n] = true
+				for variant := 0; variant < 8; variant++ {
+					jobs = append(jobs, job{k, p, n, variant})
+				}
+			}
+		}
+	}
+	parallelFor(len(jobs), func(i int) {
+		j := jobs[i]
+		fifo, pol, viaTransfer := j.variant&1 != 0, j.variant&2 != 0, j.variant&4 != 0
+		kind := kindNames[(j.k+j.p+j.variant)%5]
+		s := newStackKind(kind, j.k)
+		m := &listModel{capk: j.k, fifo: fifo}
+		if fifo {
+			s.SetFIFO(true)
+		}
+		if pol {
+			s.SetPushPolicy(func(...any) error { return nil })
+		}
+		for q := 0; q < j.p; q++ {
+			v := fmt.Sprintf("p%d", q)
+			s.Push(v)
+			m.push(v)
+		}
+		vals := make([]any, j.n)
+		for q := range vals {
+			vals[q] = fmt.Sprintf("b%d", q)
+		}
+		desc := fmt.Sprintf("%s capacity %d holding %d (fifo=%v push-policy=%v): ", kind, j.k, j.p, fifo, pol)
+		c.Transitions.Add(1)
+		var p string
+		if viaTransfer {
+			src := stackage.List().Push(vals...)
+			desc += fmt.Sprintf("Transfer of %d values into it", j.n)
+			var ok bool
+			p = noPanic(func() { ok = src.Transfer(s) })
+			if want := j.p+j.n <= j.k; p == "" && ok != want {
+				c.Violation("long-batch:transfer-verdict", fmt.Sprintf("%s returned %v want %v", desc, ok, want), nil, j.k)
+			}
+			if j.p+j.n <= j.k {
+				m.push(vals...)
+			}
+		} else {
+			desc += fmt.Sprintf("one Push of %d values", j.n)
+			p = noPanic(func() { s.Push(vals...) })
+			m.push(vals...)
+		}
+		if p != "" {
+			c.Violation("long-batch:panic", desc+" panicked: "+p, nil, j.k)
+			return
+		}
+		if bad := compareList(s, m); len(bad) > 0 {
+			c.Violation("long-batch:"+obsClass(bad[0]), desc+": "+bad[0], nil, j.k)
+		}
+		if j.p+j.n >= j.k {
+			c.Nontrivial(fmt.Sprint("long", j.k, j.p, j.n))
+		}
+		c.Outcome(fmt.Sprintf("long/%d", min(j.p+j.n, j.k)-j.k))
+	})
+	return len(jobs)
+}
+
 func runC03(c *Ctx) {
 	installLockModel()
 	cfgs := c03Configs(c)
@@ -311,6 +393,12 @@ func runC03(c *Ctx) {
 		}
 		c.Sample(map[string]any{"config": cfg.String() + " ctor=" + cfg.Ctor, "states": st.States, "transitions": st.Transitions, "bfs_depth": st.MaxDepth})
 	}
+	nl := c03LongBatches(c)
+	c.States.Add(int64(nl))
+	c.Traces.Add(int64(nl))
+	c.Evals.Add(int64(nl))
+	c.Bound["long_batches"] = nl
+	c.Rule += "; (long batches) capacities 4..130 x every fill level x one Push batch / one Transfer-into of a size from two short of to three beyond the room left (and 31..33, k, k+1) x fifo x push policy, against the list model"
 	c.Bound["configurations"] = len(cfgs)
 	c.Bound["capacities"] = "1..3 quick, 1..5 thorough, plus no capacity / constructor argument 0 / -1"
 	c.Assumptions = append(c.Assumptions, "Transfer is modelled all-or-nothing on free slots (the C15 wording); Marshal-into appends exactly one decoded element while room remains")
